@@ -4,8 +4,6 @@ package main
 // bytes/strings, sync primitives (sequential), errors.Is/As.
 
 import (
-	"crypto/sha256"
-	"fmt"
 	"go/types"
 	"strings"
 
@@ -229,82 +227,35 @@ func rtBytes(ex *Exec, fr *frame, a []Value) Value {
 	return out
 }
 
-// rtHash: SHA-256 as an uninterpreted function per input length, one UF per
-// output byte, with pairwise injectivity axioms between the applications
-// made on this path.
-func rtHash(ex *Exec, fr *frame, a []Value) Value {
-	in := a[0].([]Value)
-	args := make([]*Term, len(in))
-	allConc := true
-	for i, c := range in {
-		args[i] = ex.term(c.(BV))
-		if !args[i].IsConst() {
-			allConc = false
-		}
-	}
-	outs := make([]*Term, 32)
+// rtHash: SHA-256 modelled as an injective function with digests drawn
+// from a fixed pool: the k-th distinct input (distinctness decided by the
+// solver: the path forks on equality with each earlier input of the same
+// length) gets pool digest k. Only (in)equality of digests is explored;
+// other bit patterns of real digests are outside the claim.
+func poolDigest(k int) Array {
 	out := make(Array, 32)
-	var real [32]byte
-	if allConc {
-		buf := make([]byte, len(args))
-		for i, a := range args {
-			buf[i] = byte(a.c)
-		}
-		real = sha256.Sum256(buf)
+	for j := range out {
+		out[j] = byteVal(byte(k*37 + j*11 + 5))
 	}
-	for i := 0; i < 32; i++ {
-		if allConc {
-			outs[i] = ex.tb.Const(8, uint64(real[i]))
-			out[i] = ex.fromTerm(outs[i])
-			continue
-		}
-		name := fmt.Sprintf("H%d_%d", len(in), i)
-		var t *Term
-		if len(args) == 0 {
-			t = ex.tb.Var(name+"c", 8)
-			ex.ufApps = append(ex.ufApps, t)
-		} else {
-			t = ex.tb.UF(name, 8, args)
-			ex.ufApps = append(ex.ufApps, t)
-		}
-		outs[i] = t
-		out[i] = ex.fromTerm(t)
-	}
-	// injectivity w.r.t. earlier applications
-	for _, prev := range ex.hashApps {
-		same := true
-		if len(prev.args) == len(args) {
-			for i := range args {
-				if prev.args[i] != args[i] {
-					same = false
-				}
-			}
-		} else {
-			same = false
-		}
-		if same {
-			continue
-		}
-		var eqOut []*Term
-		for i := 0; i < 32; i++ {
-			eqOut = append(eqOut, ex.tb.Eq(prev.outs[i], outs[i]))
-		}
-		var eqIn *Term
-		if len(prev.args) != len(args) {
-			eqIn = ex.tb.ff
-		} else {
-			var c []*Term
-			for i := range args {
-				c = append(c, ex.tb.Eq(prev.args[i], args[i]))
-			}
-			eqIn = ex.tb.BAnd(c...)
-		}
-		ax := ex.tb.BOr(ex.tb.BNot(ex.tb.BAnd(eqOut...)), eqIn)
-		ex.addPC(ax)
-		ex.model = nil // model may not satisfy the new axiom
-	}
-	ex.hashApps = append(ex.hashApps, hashApp{args: args, outs: outs})
+	out[0] = byteVal(byte(0xd0 + k))
 	return out
+}
+
+func rtHash(ex *Exec, fr *frame, a []Value) Value {
+	in := append([]Value(nil), a[0].([]Value)...)
+	for i, prev := range ex.hashIn {
+		if len(prev) != len(in) {
+			continue
+		}
+		if ex.Decide(ex.cellsEq(prev, in)) {
+			return poolDigest(i)
+		}
+	}
+	ex.hashIn = append(ex.hashIn, in)
+	if len(ex.hashIn) > 40 {
+		ex.unsupported(fr, "more than 40 distinct hash inputs on one path")
+	}
+	return poolDigest(len(ex.hashIn) - 1)
 }
 
 // ---------- byte kernels ----------
